@@ -140,10 +140,13 @@ CLAIMS["C16"] = dict(
          "line in order) and then call the same per-file scan function as a named file, only the reported name differs; the API's "
          "__build_common_arguments returns, position by position, the command-line spelling of the API object's state (all 96 paths); the "
          "--stack-trace flag only ever flows into what is put INTO an error message (structural data-flow obligation over all 18 reads); every "
-         "ParserLogger call has a literal format string, so enabling a log level cannot make a call fail (one obligation per logging function).",
+         "ParserLogger call has a literal format string, so enabling a log level cannot make a call fail (one obligation per logging function); "
+         "the in-memory provider of scan_string / fix_string delivers exactly the text up to each newline and keeps exactly what follows "
+         "it (InMemorySourceProvider against an assumed contract of str.split(sep, 1)), the line structure FileSourceProvider produces.",
     note=TB + "Known finding D11: 200 logger calls in 54 functions interpolate token text into the format; at DEBUG level `fix` of a document "
-              "containing '$' fails. NOT covered: the line-splitting equivalence of InMemorySourceProvider and FileSourceProvider (str.split is "
-              "uninterpreted), scan_path / fix_path / fix_string wrappers, OS newline translation.")
+              "containing '$' fails. NOT covered: scan_path / fix_path / fix_string wrappers, OS newline translation ('\\r' is a line end for a file, "
+              "not for a string); the two providers are each proved against 'lines end at newline characters', their equality is the "
+              "composition of the two contracts (on paper).")
 
 CLAIMS["C20"] = dict(
     text="Proof of the inertness mechanism: every use of an extension's entry point in the parser (extended autolinks handlers, pragma "
